@@ -59,6 +59,7 @@ class Ctx:
         self.results: List[Result] = []
         self._cfg: Dict[str, CFG] = {}
         self._rd: Dict[str, ReachingDefs] = {}
+        self._ordinals: Dict[str, int] = {}
         self.analysed_funcs: set = set()
         self.analysed_modules: set = set()
         self.cfg_nodes = 0
@@ -90,6 +91,12 @@ class Ctx:
         return r
 
     # ----------------------------------------------------------- verdicts
+    def okey(self, base: str) -> str:
+        """stable instance key: `base#<ordinal>` in analysis order (no line numbers, no local spellings)"""
+        n = self._ordinals.get(base, 0) + 1
+        self._ordinals[base] = n
+        return f"{base}#{n}"
+
     def holds(self, rule: str, key: str, where: str, msg: str, nontrivial: bool = True) -> None:
         self.results.append(Result(rule, HOLDS, key, where, msg, [], nontrivial))
 
